@@ -1,9 +1,210 @@
 import WM.Proto
-namespace WM.Drv.C11
-open WM.Proto
+import WM.Model.MatcherTree
+import WM.Model.MatcherScoring
+/-!
+Protocol handler of family `c11` (also used by `c12`): builds a matcher tree from an S-expression,
+runs a program of matcher operations on it and prints what the harness observes on the real
+matcher after every operation.
 
-/-- Protocol handler of family `c11` (requests arrive without the family token). -/
+  c11 run  TREE (OP ...)   -> (OBS OBS ...)     one OBS after construction, one after every OP
+  c11 den  TREE            -> ((id score) ...)  the meaning of the freshly built tree (Layer S)
+  c11 bm25 idf tf fl avgfl B K1 -> score
+
+TREE ::= (null) | (list (id..) (w..) scorer01) | (leaf SC tmw tml (blk maxid maxw minlen (id w len)..)..)
+       | (union T T) | (dismax T T) | (inter T T) | (andnot T T) | (andmaybe T T) | (require T T)
+       | (boost b T) | (filter (id..) excl01 boost T) | (inverse limit (missing..) weight T) | (const score T)
+SC   ::= freq | (tfidf idf) | (bm25 idf avgfl B K1)
+OP   ::= next | (skip t) | (skipq q) | (replace q) | (replace! q) | reset | (copy k) | (swap k)
+         (replace! q): a replace whose result is a new object on the real side; answered with (R 1 id score) or (R))
+OBS  ::= (1 id score supports blockq maxq) | (0) when exhausted | (!Error) when the operation raised
+-/
+namespace WM.Drv.C11
+open WM.Proto WM.Proto.SExp WM.Matcher
+
+def errName : Err → String
+  | .readTooFar => "ReadTooFar"
+  | .index => "IndexError"
+  | .assertion => "AssertionError"
+  | .notImpl => "NotImplementedError"
+  | .value => "ValueError"
+  | .zeroDiv => "ZeroDivisionError"
+  | .attr => "AttributeError"
+  | .noBlock => "Exception"
+  | .diverge => "DIVERGE"
+
+def parseScorer : SExp → Option (Rat → Nat → Rat)
+  | .atom "freq" => some freqScore
+  | .list [.atom "tfidf", idf] => do
+    let i ← idf.rat?
+    pure (tfidfScore i)
+  | .list [.atom "bm25", idf, avgfl, b, k1] => do
+    let i ← idf.rat?
+    let a ← avgfl.rat?
+    let b ← b.rat?
+    let k ← k1.rat?
+    pure (bm25 i a b k)
+  | _ => none
+
+def parsePosting : SExp → Option Posting
+  | .list [i, w, l] => do
+    let i ← i.nat?
+    let w ← w.rat?
+    let l ← l.nat?
+    pure ⟨i, w, l⟩
+  | _ => none
+
+def parseBlock : SExp → Option Block
+  | .list (.atom "blk" :: mid :: mw :: ml :: ps) => do
+    let mid ← mid.nat?
+    let mw ← mw.rat?
+    let ml ← ml.nat?
+    let ps ← ps.mapM parsePosting
+    pure ⟨ps, mid, mw, ml⟩
+  | _ => none
+
+def ratList? (e : SExp) : Option (List Rat) := listOf? rat? e
+
+/-- `none`: unparseable; `some (.error e)`: the constructor raised -/
+partial def parseTree : SExp → Option (R Any)
+  | .list [.atom "null"] => some (pure Any.null)
+  | .list [.atom "list", ids, ws, sc] => do
+    let ids ← ids.natList?
+    let ws ← ratList? ws
+    let sc ← sc.bool?
+    pure (pure ⟨.list, ⟨ids, ws, 0, sc⟩⟩)
+  | .list (.atom "leaf" :: sc :: tmw :: tml :: blocks) => do
+    let sc ← parseScorer sc
+    let tmw ← tmw.rat?
+    let tml ← tml.nat?
+    let bs ← blocks.mapM parseBlock
+    pure (pure ⟨.leaf, ⟨bs, sc, tmw, tml, 0, 0, false⟩⟩)
+  | .list [.atom "union", a, b] => do
+    let a ← parseTree a
+    let b ← parseTree b
+    pure (do let a ← a; let b ← b; pure (mkUnion a b))
+  | .list [.atom "dismax", a, b] => do
+    let a ← parseTree a
+    let b ← parseTree b
+    pure (do let a ← a; let b ← b; pure (mkDisMax a b))
+  | .list [.atom "inter", a, b] => do
+    let a ← parseTree a
+    let b ← parseTree b
+    pure (do let a ← a; let b ← b; mkInter a b)
+  | .list [.atom "andnot", a, b] => do
+    let a ← parseTree a
+    let b ← parseTree b
+    pure (do let a ← a; let b ← b; mkAndNot a b)
+  | .list [.atom "andmaybe", a, b] => do
+    let a ← parseTree a
+    let b ← parseTree b
+    pure (do let a ← a; let b ← b; mkAndMaybe a b)
+  | .list [.atom "require", a, b] => do
+    let a ← parseTree a
+    let b ← parseTree b
+    pure (do let a ← a; let b ← b; mkRequire a b)
+  | .list [.atom "boost", w, c] => do
+    let w ← w.rat?
+    let c ← parseTree c
+    pure (do let c ← c; pure (mkBoost c w))
+  | .list [.atom "filter", ids, ex, w, c] => do
+    let ids ← ids.natList?
+    let ex ← ex.bool?
+    let w ← w.rat?
+    let c ← parseTree c
+    pure (do let c ← c; mkFilter c ids ex w)
+  | .list [.atom "inverse", lim, miss, w, c] => do
+    let lim ← lim.nat?
+    let miss ← miss.natList?
+    let w ← w.rat?
+    let c ← parseTree c
+    pure (do let c ← c; mkInverse c lim miss w 0)
+  | .list [.atom "const", s, c] => do
+    let s ← s.rat?
+    let c ← parseTree c
+    pure (do let c ← c; pure (mkConst c s))
+  | _ => none
+
+inductive Op where
+  | next | skip (t : Nat) | skipq (q : Rat) | replace (q : Rat) | replaceR (q : Rat) | reset | copy (k : Nat)
+  | swap (k : Nat)
+
+def parseOp : SExp → Option Op
+  | .atom "next" => some .next
+  | .atom "reset" => some .reset
+  | .list [.atom "skip", t] => .skip <$> t.nat?
+  | .list [.atom "skipq", q] => .skipq <$> q.rat?
+  | .list [.atom "replace", q] => .replace <$> q.rat?
+  | .list [.atom "replace!", q] => .replaceR <$> q.rat?
+  | .list [.atom "copy", k] => .copy <$> k.nat?
+  | .list [.atom "swap", k] => .swap <$> k.nat?
+  | _ => none
+
+def showR {α} (f : α → String) : R α → String
+  | .ok a => f a
+  | .error e => "!" ++ errName e
+
+def observe (m : Any) : String :=
+  let O := ops m.1
+  if !O.isActive m.2 then "(0)" else
+  let sup := O.supportsBQ m.2
+  let q (r : R Rat) : String := if sup then showR showRat r else "-"
+  s!"({showBool (O.isActive m.2)} {showR toString (O.id m.2)} {showR showRat (O.score m.2)} {showBool sup} {q (O.blockQuality m.2)} {q (O.maxQuality m.2)})"
+
+def applyOp (m : Any) (regs : List (Nat × Any)) : Op → R (Any × List (Nat × Any))
+  | .next => do let m' ← (ops m.1).next m.2; pure (⟨m.1, m'⟩, regs)
+  | .skip t => do let m' ← (ops m.1).skipTo m.2 t; pure (⟨m.1, m'⟩, regs)
+  | .skipq q => do let (m', _) ← (ops m.1).skipToQuality m.2 q; pure (⟨m.1, m'⟩, regs)
+  | .replace q => do let m' ← m.replace q; pure (m', regs)
+  | .replaceR q => do let m' ← m.replace q; pure (m', regs)
+  | .reset => do let m' ← (ops m.1).reset m.2; pure (⟨m.1, m'⟩, regs)
+  | .copy k => pure (m, (k, m) :: regs.filter (·.1 != k))
+  | .swap k =>
+    match regs.find? (·.1 == k) with
+    | some (_, r) => pure (r, (k, m) :: regs.filter (·.1 != k))
+    | none => pure (m, regs)
+
+/-- after a reshaping `replace(q)` only the entry the replacement is on is compared, and only if it scores
+    above `q` (the shape of the replacement is not an observable, DESIGN Appendix F) -/
+def observeReshaped (m : Any) (q : Rat) : String :=
+  let O := ops m.1
+  if O.isActive m.2 then
+    match O.id m.2, O.score m.2 with
+    | .ok x, .ok s => if q < s then s!"(R 1 {x} {showRat s})" else "(R)"
+    | _, .error e => s!"(R !{errName e})"
+    | .error e, _ => s!"(R !{errName e})"
+  else "(R)"
+
+def runProg (m : Any) (prog : List Op) : List String :=
+  let rec go (m : Any) (regs : List (Nat × Any)) (ops : List Op) (acc : List String) : List String :=
+    match ops with
+    | [] => acc.reverse
+    | op :: rest =>
+      match applyOp m regs op with
+      | .error e => (s!"(!{errName e})" :: acc).reverse
+      | .ok (m', regs') =>
+        match op with
+        | .replaceR q => go m' regs' rest (observeReshaped m' q :: acc)
+        | _ => go m' regs' rest (observe m' :: acc)
+  go m [] prog [observe m]
+
+def showDen (L : Den) : String :=
+  showList (fun p => s!"({p.1} {showRat p.2})") L
+
 def handle : List SExp → String
+  | [.atom "run", tree, .list prog] =>
+    match parseTree tree, prog.mapM parseOp with
+    | some (.ok m), some prog => "(" ++ " ".intercalate (runProg m prog) ++ ")"
+    | some (.error e), some _ => s!"((!{errName e}))"
+    | _, _ => "bad-op"
+  | [.atom "den", tree] =>
+    match parseTree tree with
+    | some (.ok m) => showDen m.den
+    | some (.error e) => s!"!{errName e}"
+    | none => "bad-op"
+  | [.atom "bm25", idf, tf, fl, avgfl, b, k1] =>
+    match idf.rat?, tf.rat?, fl.nat?, avgfl.rat?, b.rat?, k1.rat? with
+    | some idf, some tf, some fl, some avgfl, some b, some k1 => showRat (bm25 idf avgfl b k1 tf fl)
+    | _, _, _, _, _, _ => "bad-op"
   | _ => "bad-op"
 
 end WM.Drv.C11
